@@ -24,7 +24,7 @@ def config_ok(d):
 def request_ok(req):
     """what Request.from_json guarantees about an accepted request"""
     return (isinstance(req._method, str) and id_ok(req._id)
-            and (req._params is None or (is_json(req._params) and isinstance(req._params, (list, dict)))))
+            and (req._params is None or isinstance(req._params, (list, dict))))
 
 
 def ran_once(n0, m):
@@ -82,3 +82,29 @@ def handler_event_ok(i, h, request, context, prev):
     a = ev_args(i)
     return (ev_kind(i) == 'call' and same(ev_callee(i), h) and ev_outcome(i) == 'ret'
             and len(a) == 3 and same(a[0], request) and same(a[1], context) and same(a[2], prev))
+
+
+def wf_error_obj(e):
+    """C01: error = integer code + string message, optional data"""
+    c = member(e, 'code')
+    return (isinstance(e, dict) and isinstance(c, int) and not isinstance(c, bool)
+            and isinstance(member(e, 'message'), str))
+
+
+def wf_response_obj(d):
+    """C01: a response object carries jsonrpc "2.0", an id that is a string, a number or null, and exactly one
+    of result / error"""
+    if not isinstance(d, dict):
+        return False
+    if not (member(d, 'jsonrpc') == '2.0' and not is_absent(member(d, 'id')) and id_ok(member(d, 'id'))):
+        return False
+    r = member(d, 'result')
+    e = member(d, 'error')
+    if is_absent(e):
+        return not is_absent(r)
+    return is_absent(r) and wf_error_obj(e)
+
+
+def code_of(d):
+    e = member(d, 'error')
+    return 0 if is_absent(e) else member(e, 'code')
